@@ -443,3 +443,35 @@ def compact_counter_rule(prog, chk, rule, file_filter, floor_n):
                    "data base: the first samples are accessed, masked ones included, instead of the active ones" % x["n"],
                    key="%s|%s|%s(%s)" % (rule, f.name, short, x["n"]), nontrivial=bad)
     chk.floor(rule, n, floor_n)
+
+
+def same_sample_gates_rule(prog, chk, rule, file_filter, floor_n):
+    """the gates combined in one condition address the same sample: `!db->isActive(iech) || !db->isIsotopic(iech)` decides whether sample
+    `iech` takes part; a second gate on another rank (`isIsotopic(iech0)`, the sample asked for, constant in the loop) lets an active sample
+    with an undefined value through and shifts the rows of every following sample."""
+    G = ("isActive", "isIsotopic", "isActiveAndDefined", "isAllUndefined", "isAllIsotopic")
+    n = 0
+    for f in sorted(prog.funcs, key=lambda x: (x.file, x.line)):
+        if f.body is None or not any(s_ in f.file for s_ in file_filter):
+            continue
+        for x in f.walk():
+            if x["k"] != "If" or x["c"][-3] is None:
+                continue
+            by = {}
+            for y in walk(x["c"][-3]):
+                if y["k"] == "MCall" and (y.get("callee") or "").split("::")[-1] in G and (y.get("cls") or "").startswith("Db"):
+                    o = call_obj(y)
+                    r = "this" if (o is None or o["k"] == "This") else show(o)
+                    a = call_args(y)
+                    if a and a[0] is not None:
+                        by.setdefault(r, []).append((show(a[0]), (y.get("callee") or "").split("::")[-1]))
+            for r, args in sorted(by.items()):
+                if len(args) < 2:
+                    continue
+                n += 1
+                ok = len({a_ for a_, _ in args}) == 1
+                chk.analysed(f)
+                chk.ob(rule, "%s: the gates of one condition address the same sample of %s" % (f.name, r), f.loc(x), ok,
+                       detail=None if ok else "%s: the condition that decides whether a sample takes part tests two different samples" % ", ".join("%s(%s)" % (g_, a_) for a_, g_ in args),
+                       key="%s|%s|%s" % (rule, f.name, r))
+    chk.floor(rule, n, floor_n)
